@@ -809,6 +809,15 @@ pub fn run_seq(trace: &Trace, skip: &BTreeSet<usize>, opts: &SeqOpts) -> SeqOutc
                 pol.desync();
                 pol.enabled = false;
             }
+            // a stepped iteration during which invalidate_all was called (concurrent cache): the
+            // exact model does not follow the script; it resynchronises from the next snapshot
+            if pol.enabled && !unsync {
+                if let Op::IterSteps { script } = op {
+                    if script.iter().any(|st| matches!(st, crate::ops::IterStep::InvalidateAll)) {
+                        pol.desync();
+                    }
+                }
+            }
             if pol.enabled {
                 let estf = |k: u16| est_pre.get(&k).copied().unwrap_or(0);
                 if unsync {
